@@ -22,9 +22,9 @@ type fieldKey struct {
 
 type TaintSpec struct {
 	Name      string
-	Source    func(v ssa.Value) bool             // value is a fresh tainted object
-	Sanitizer func(callee *types.Func) bool      // call result is clean whatever the args
-	Carrier   func(t types.Type) bool            // type may hold a tainted object
+	Source    func(v ssa.Value) bool                       // value is a fresh tainted object
+	Sanitizer func(callee *types.Func) bool                // call result is clean whatever the args
+	Carrier   func(t types.Type) bool                      // type may hold a tainted object
 	RawSink   func(in ssa.Instruction) (ssa.Value, string) // stored value + sink description, or nil
 	// StorageStruct: struct types that are container storage cells; their fields are read as
 	// clean (the invariant under check) and never receive field taint.
